@@ -80,6 +80,18 @@ struct TLess {
   };
   bool operator()(const E &a, const Bucket &k) const { return val_of(a) / 4 < k.b; }
   bool operator()(const Bucket &k, const E &a) const { return k.b < val_of(a) / 4; }
+  // same with a chosen width (many elements equivalent to one key)
+  struct Wide {
+    int b, width;
+  };
+  bool operator()(const E &a, const Wide &k) const {
+    ++CmpCounter::calls();
+    return val_of(a) / k.width < k.b;
+  }
+  bool operator()(const Wide &k, const E &a) const {
+    ++CmpCounter::calls();
+    return k.b < val_of(a) / k.width;
+  }
 };
 
 // traits: how to build a comparator from a tape byte and how to model it
